@@ -99,6 +99,7 @@ type icRun struct {
 	done         []bool
 	stuck        []string
 	leaked       []string
+	pre          map[int]*Entry[int, int] // entry objects resident after the pre-history, by (actual) key
 	leakedAtIdle []string    // store goroutines alive when all clients had finished and Close had returned
 	final        map[int]int // resident map at the end (before Close)
 	finalN       int
@@ -280,6 +281,14 @@ func icBody(cfg *icCfg) (*icRun, func()) {
 		vrt.NoBranch(func() {
 			for _, op := range cfg.Pre {
 				r.do(-1, op, &nextV)
+			}
+		})
+		vrt.Quiet(func() {
+			r.pre = map[int]*Entry[int, int]{}
+			for _, sh := range r.h.s.shards {
+				for k, e := range sh.hashmap {
+					r.pre[k] = e
+				}
 			}
 		})
 		for ci, sc := range cfg.Scripts {
